@@ -76,14 +76,23 @@ PORTS = lambda d: {"i_value": d.value, "i_length": d.length, "i_start": d.start,
 class PacketSpec:
     """Ghosts, requires and ensures shared by the three handler units (see module docstring)."""
 
-    def __init__(self, c, I, O, keys, maxpkt, k_data, k_stall):
+    def __init__(self, c, I, O, keys, maxpkt, k_data, k_stall, parent=None, tag=""):
+        """parent/tag: the contract of a sub-handler at its instance inside GetDescriptorHandlerMux.  It observes the
+        instance's own tx/stall signals, shares the parent's latched request, adds no requires (its environment is the
+        mux's, related by the invariant `sub busy => mux busy`), and its ensures are lemmas named <tag>..."""
         self.keys, self.maxpkt = keys, maxpkt
-        busy = self.busy = c.ghost("busy", 1, init=0)
-        age = self.age = c.ghost("age", 3, init=0)
-        cnt = self.cnt = c.ghost("cnt", W, init=0)
-        gv = self.gv = c.ghost("req_value", 16, init=0)
-        gl = self.gl = c.ghost("req_length", W, init=0)
-        gp = self.gp = c.ghost("req_start_position", W, init=0)
+        ens = (lambda name, e, clause="": c.ensure(tag + name, e, clause="[sub-handler contract at its instance] " + clause)) \
+            if parent else c.ensure
+        busy = self.busy = c.ghost(tag + "busy", 1, init=0)
+        age = self.age = c.ghost(tag + "age", 3, init=0)
+        cnt = self.cnt = c.ghost(tag + "cnt", W, init=0)
+        if parent:
+            gv, gl, gp = parent.gv, parent.gl, parent.gp
+        else:
+            gv = c.ghost("req_value", 16, init=0)
+            gl = c.ghost("req_length", W, init=0)
+            gp = c.ghost("req_start_position", W, init=0)
+        self.gv, self.gl, self.gp = gv, gl, gp
         self.isbusy = busy == 1
         start = self.start = I["i_start"] == 1
         ready = self.ready = I["i_ready"] == 1
@@ -92,22 +101,28 @@ class PacketSpec:
         self.valid, self.first, self.last, self.stall = valid, first, last, stall
         v_in, l_in, p_in = I["i_value"], zx(I["i_length"], W), zx(I["i_start_position"], W)
         # the request being served: the latched one while busy, the one on the inputs in the start cycle
-        v = self.v = z3.If(self.isbusy, gv, v_in)
-        l = self.l = z3.If(self.isbusy, gl, l_in)
-        p = self.p = z3.If(self.isbusy, gp, p_in)
+        if parent:
+            v, l, p = parent.v, parent.l, parent.p
+        else:
+            v, l, p = z3.If(self.isbusy, gv, v_in), z3.If(self.isbusy, gl, l_in), z3.If(self.isbusy, gp, p_in)
+        self.v, self.l, self.p = v, l, p
         self.exists = z3.Or(*[v == k for k in keys]) if keys else z3.BoolVal(False)
         self.LEN = lookup(v, {k: len(b) for k, b in keys.items()}, W)
         T = self.T = umin(l, self.LEN)
         self.zlp = p == T
         n = self.n = umin(bvc(maxpkt, W), T - p)
         self.active = z3.Or(self.isbusy, start)
-        self.start_accept = z3.And(z3.Not(self.isbusy), start)
+        self.start_accept = parent.start_accept if parent else z3.And(z3.Not(self.isbusy), start)
         end_now = self.end_now = z3.And(self.active, z3.Or(stall, z3.And(valid, last, z3.Or(ready, self.zlp))))
         self.take = z3.And(self.isbusy, valid, ready)
         c.set_next(busy, z3.If(end_now, bvc(0, 1), z3.If(self.isbusy, bvc(1, 1), z3.If(start, bvc(1, 1), bvc(0, 1)))))
         c.set_next(cnt, z3.If(self.start_accept, bvc(0, W), z3.If(self.take, cnt + 1, cnt)))
         c.set_next(age, z3.If(self.start_accept, bvc(1, 3),
                               z3.If(z3.And(self.isbusy, z3.Not(valid), z3.ULT(age, 7)), age + 1, age)))
+        if parent:
+            c.inv(tag + "busy_implies_mux_busy", z3.Implies(self.isbusy, parent.isbusy))
+            self._ensures(c, ens, O, k_data, k_stall, covers=False)
+            return
         c.set_next(gv, z3.If(self.start_accept, v_in, gv))
         c.set_next(gl, z3.If(self.start_accept, l_in, gl))
         c.set_next(gp, z3.If(self.start_accept, p_in, gp))
@@ -125,39 +140,44 @@ class PacketSpec:
         legal_g = z3.And(z3.URem(gp, bvc(maxpkt, W)) == 0, z3.ULT(gl, 1 << 16), z3.ULT(gp, 1 << 11),
                          z3.Implies(self.exists, z3.Or(z3.ULT(gp, T), z3.And(gp == T, z3.ULT(T, gl)))))
         c.inv("latched_request_is_legal", z3.Implies(self.isbusy, legal_g))
+        self._ensures(c, c.ensure, O, k_data, k_stall, covers=True)
 
-        # ---- ensures
+    def _ensures(self, c, ensure, O, k_data, k_stall, covers):
+        valid, first, last, stall, ready = self.valid, self.first, self.last, self.stall, self.ready
+        v, p, n, cnt, age = self.v, self.p, self.n, self.cnt, self.age
         D = self.D = lambda pos: self._data(v, pos)
-        c.ensure("silent_when_not_started", z3.And(z3.Implies(z3.Not(self.isbusy), z3.Not(valid)),
+        ensure("silent_when_not_started", z3.And(z3.Implies(z3.Not(self.isbusy), z3.Not(valid)),
                                                    z3.Implies(z3.Not(self.active), z3.Not(stall))),
                  clause="(frame) no data and no stall unless a descriptor read was started")
-        c.ensure("stall_only_for_missing_descriptor", z3.Implies(stall, z3.Not(self.exists)),
+        ensure("stall_only_for_missing_descriptor", z3.Implies(stall, z3.Not(self.exists)),
                  clause="Requests for descriptors that do not exist are STALLed (and only those)")
-        c.ensure("missing_descriptor_gets_no_data", z3.Implies(z3.And(self.active, z3.Not(self.exists)), z3.Not(valid)),
+        ensure("missing_descriptor_gets_no_data", z3.Implies(z3.And(self.active, z3.Not(self.exists)), z3.Not(valid)),
                  clause="... are STALLed without data")
         age_eff = z3.If(self.isbusy, age, bvc(0, 3))
-        c.ensure("missing_descriptor_is_stalled_in_time",
+        ensure("missing_descriptor_is_stalled_in_time",
                  z3.Implies(z3.And(self.active, z3.Not(self.exists), z3.UGE(age_eff, k_stall)), stall),
                  clause=f"Requests for descriptors that do not exist are STALLed (at most {k_stall} cycles after start)")
-        c.ensure("existing_descriptor_is_answered_in_time",
+        ensure("existing_descriptor_is_answered_in_time",
                  z3.Implies(z3.And(self.isbusy, self.exists, z3.UGE(age, k_data)), valid),
                  clause=f"the data stage ... (a packet or ZLP is produced, at most {k_data} cycles after start)")
-        c.ensure("packet_has_no_gaps", z3.Implies(z3.And(self.isbusy, cnt != 0), valid),
+        ensure("packet_has_no_gaps", z3.Implies(z3.And(self.isbusy, cnt != 0), valid),
                  clause="the concatenated data stage equals ... (once a packet has begun, a byte is offered every cycle until its last byte)")
         data = z3.And(self.isbusy, valid, self.exists, z3.Not(self.zlp))
-        c.ensure("data_bytes_are_descriptor_bytes", z3.Implies(data, O["o_payload"] == D(p + cnt)),
+        ensure("data_bytes_are_descriptor_bytes", z3.Implies(data, O["o_payload"] == D(p + cnt)),
                  clause="the concatenated data stage equals the first min(wLength, descriptor length) bytes of that descriptor "
                         "(byte cnt of the packet started at offset p is descriptor[p+cnt])")
-        c.ensure("first_iff_first_byte", z3.Implies(data, first == (cnt == 0)), clause="packet framing: first marks byte 0 only")
-        c.ensure("last_iff_byte_n_minus_1", z3.Implies(data, z3.And(z3.ULT(cnt, n), last == (cnt == n - 1))),
+        ensure("first_iff_first_byte", z3.Implies(data, first == (cnt == 0)), clause="packet framing: first marks byte 0 only")
+        ensure("last_iff_byte_n_minus_1", z3.Implies(data, z3.And(z3.ULT(cnt, n), last == (cnt == n - 1))),
                  clause="each packet is at most the max packet size; its length is min(max packet, min(wLength,len) - p): "
                         "a short packet ends the stage")
-        c.ensure("zlp_when_total_is_multiple_of_packet_size",
+        ensure("zlp_when_total_is_multiple_of_packet_size",
                  z3.Implies(z3.And(self.isbusy, valid, self.exists, self.zlp), z3.And(z3.Not(first), last)),
                  clause="when the total is a non-zero multiple of the packet size below wLength, [the stage ends] with a zero-length packet")
-        c.ensure("byte_held_until_ready", z3.Implies(z3.And(data, z3.Not(ready)),
+        ensure("byte_held_until_ready", z3.Implies(z3.And(data, z3.Not(ready)),
                                                      z3.And(c.nx(O["o_valid"]) == 1, c.nx(O["o_payload"]) == O["o_payload"])),
                  clause="all ready patterns: an offered byte is held until accepted")
+        if not covers:
+            return
         c.cover("data_packet_completes", z3.And(data, last, ready))
         c.cover("stall", stall)
         c.cover("stall_on_offer_wait", z3.And(data, z3.Not(ready), cnt != 0))
